@@ -181,6 +181,7 @@ theorem step_extLog (s : St) (op : Op) : ExtLog s (step ⟨true, true⟩ s op) :
   | unregister n => exact ⟨[], by simp [step], by simp⟩
   | redeclare n req caps => exact ⟨[], by simp [step], by simp⟩
   | setCeiling al => exact ⟨[], by simp [step], by simp⟩
+  | script b ops => exact ⟨[], by simp [step], by simp⟩
   | metabolize pre callee argsOk ops => exact (metabolize_ext s pre callee argsOk ops).2
   | call n ops => exact (executeToolCall_ext s n ops).2
   | loop k auto rounds =>
@@ -201,6 +202,7 @@ theorem step_allowed (s : St) (op : Op) (h : op.isSetCeiling = false) :
   | unregister n => rfl
   | redeclare n req caps => rfl
   | setCeiling al => simp [Op.isSetCeiling] at h
+  | script b ops => rfl
   | metabolize pre callee argsOk ops => exact (metabolize_ext s pre callee argsOk ops).1
   | call n ops => exact (executeToolCall_ext s n ops).1
   | loop k auto rounds =>
